@@ -365,7 +365,15 @@ func checkOnce(t *T, prop func(*T)) (err *testError) {
 	if t.tbLog {
 		t.tb.Helper()
 	}
-	defer func() { err = panicToError(recover(), 3) }()
+	defer func() {
+		err = panicToError(recover(), 3)
+
+		// a non-fatal failure signaled before a skip or from a cleanup function
+		// belongs to this test case, not to whichever one happens to run next
+		if msg := t.takeFailed(); msg != "" && (err == nil || err.isInvalidData()) {
+			err = panicToError(msg, 2)
+		}
+	}()
 
 	defer t.cleanup()
 	prop(t)
@@ -780,6 +788,15 @@ func (t *T) fail(now bool, msg string) {
 	if now {
 		panic(t.failed)
 	}
+}
+
+func (t *T) takeFailed() stopTest {
+	t.mu.Lock()
+	defer t.mu.Unlock()
+
+	failed := t.failed
+	t.failed = ""
+	return failed
 }
 
 func (t *T) failOnError() {
